@@ -307,8 +307,8 @@ int lkprobe_relret(void *LKCTX) { int LKRET; coap_lock_callback_ret_release(LKRE
 '''
 
 
-def cpp(repo, cfg, text=None, path=None, cc="gcc"):
-    cmd = [cc, "-E", "-P"] + CPP_COMMON + ["-I" + cfg, "-I" + os.path.join(cfg, "include"),
+def cpp(repo, cfg, text=None, path=None, cc="gcc", defs=()):
+    cmd = [cc, "-E", "-P"] + CPP_COMMON + list(defs) + ["-I" + cfg, "-I" + os.path.join(cfg, "include"),
                                            "-I" + os.path.join(repo, "include"),
                                            "-I" + os.path.join(repo, "src")]
     if text is not None:
@@ -378,9 +378,9 @@ def lock_events(toks):
 MOP = {"I": "LkMInc", "D": "LkMDec", "U": "LkMUnlock", "L": "LkMLock", "F": "LkMFunc"}
 
 
-def probe_macros(repo, cfg):
+def probe_macros(repo, cfg, defs=()):
     """-> {api,keep,keepret,rel,relret: [mop names]}, diagnostics"""
-    out = cpp(repo, cfg, text=PROBE)
+    out = cpp(repo, cfg, text=PROBE, defs=defs)
     clean = strip_comments_strings(out)
     res, diag = {}, {}
     for name, hdr, toks, _ in find_functions(clean, want=r"lkprobe_\w+"):
@@ -406,7 +406,7 @@ def probe_macros(repo, cfg):
     return res, diag
 
 
-def scan_wait(repo, cfg):
+def scan_wait(repo, cfg, defs=()):
     """the unlock / wait / lock of coap_io_process_with_fds_lkd, from the preprocessed source"""
     src = None
     for f in sorted(glob.glob(os.path.join(repo, "src", "*.c"))):
@@ -415,7 +415,7 @@ def scan_wait(repo, cfg):
             break
     if not src:
         raise TranslatorError("coap_io_process_with_fds_lkd not found")
-    clean = strip_comments_strings(cpp(repo, cfg, path=src))
+    clean = strip_comments_strings(cpp(repo, cfg, path=src, defs=defs))
     fn = [x for x in find_functions(clean, want=r"\bcoap_io_process_with_fds_lkd\b")]
     if len(fn) != 1:
         raise TranslatorError("coap_io_process_with_fds_lkd: %d definitions after preprocessing" % len(fn))
@@ -439,6 +439,90 @@ def scan_wait(repo, cfg):
     worst = sorted(segs, key=lambda x: order.index(x))[0]
     return [MOP[e] for e in worst], {"file": os.path.relpath(src, repo), "segments": sorted(segs),
                                      "paths": len(ps)}
+
+
+def static_config(repo, cfg, defs=()):
+    """What a build with these headers/defines WOULD contain, decided by the preprocessor alone:
+    is coap_lock_lock_func defined by src/coap_threadsafe.c, what does
+    coap_threadsafe_is_supported() return.  Used for configurations that are not built here
+    (COAP_THREAD_RECURSIVE_CHECK, the autoconf configuration) and as a cross-check of the
+    built one."""
+    ts = strip_comments_strings(cpp(repo, cfg, path=os.path.join(repo, "src", "coap_threadsafe.c"), defs=defs))
+    names = [n for n, _, _, _ in find_functions(ts)]
+    compiled = "coap_lock_lock_func" in names and "coap_lock_unlock_func" in names
+    net = None
+    for f in sorted(glob.glob(os.path.join(repo, "src", "*.c"))):
+        if re.search(r"^coap_threadsafe_is_supported\s*\(", open(f, errors="replace").read(), re.M):
+            net = f
+            break
+    if not net:
+        raise TranslatorError("coap_threadsafe_is_supported not found")
+    clean = strip_comments_strings(cpp(repo, cfg, path=net, defs=defs))
+    fn = [x for x in find_functions(clean, want=r"\bcoap_threadsafe_is_supported\b")]
+    if len(fn) != 1:
+        raise TranslatorError("coap_threadsafe_is_supported: %d definitions" % len(fn))
+    toks = fn[0][2]
+    if len(toks) == 5 and toks[0] == "{" and toks[1] == "return" and toks[3] == ";" and toks[4] == "}" \
+            and re.match(r"\d+$", toks[2]):
+        reports = int(toks[2]) != 0
+    else:
+        raise TranslatorError("coap_threadsafe_is_supported has an unexpected body: " + " ".join(toks[:20]))
+    return compiled, reports
+
+
+def ensure_autoconf_cfg(repo, build_dir):
+    """Run the repository's second build system (./autogen.sh && ./configure, defaults) on a
+    scratch copy and keep the generated coap_config.h + include/coap3/coap_defines.h in
+    <build_dir>/accfg/<hash>/ (the hash covers the autoconf inputs, so an edit to them is seen)."""
+    import hashlib
+    import shutil
+    files = [os.path.join(repo, f) for f in ("configure.ac", "autogen.sh", "Makefile.am")]
+    files += sorted(glob.glob(os.path.join(repo, "m4", "*")))
+    files += sorted(glob.glob(os.path.join(repo, "*.in"))) + \
+        sorted(glob.glob(os.path.join(repo, "include", "coap3", "*.in")))
+    h = hashlib.sha256()
+    for f in files:
+        h.update(os.path.relpath(f, repo).encode())
+        try:
+            h.update(open(f, "rb").read())
+        except OSError:
+            h.update(b"<missing>")
+    d = os.path.join(build_dir, "accfg", h.hexdigest()[:16])
+    if os.path.exists(os.path.join(d, "ok")):
+        return d
+    work = d + ".work"
+    shutil.rmtree(work, ignore_errors=True)
+    shutil.rmtree(d, ignore_errors=True)
+    os.makedirs(work)
+    subprocess.run(["rsync", "-a", "--exclude", ".git", "--exclude", "_build", repo + "/", work + "/"],
+                   check=True, timeout=300)
+    for cmd in (["./autogen.sh"], ["./configure", "--disable-doxygen", "--disable-manpages",
+                                    "--disable-examples"]):
+        p = subprocess.run(cmd, cwd=work, stdout=subprocess.PIPE, stderr=subprocess.STDOUT, timeout=900)
+        if p.returncode != 0:
+            raise TranslatorError("autoconf build system: %s failed:\n%s" %
+                                  (" ".join(cmd), p.stdout.decode("utf-8", "replace")[-1500:]))
+    os.makedirs(os.path.join(d, "include", "coap3"))
+    shutil.copy(os.path.join(work, "coap_config.h"), os.path.join(d, "coap_config.h"))
+    shutil.copy(os.path.join(work, "include", "coap3", "coap_defines.h"),
+                os.path.join(d, "include", "coap3", "coap_defines.h"))
+    shutil.rmtree(work, ignore_errors=True)
+    open(os.path.join(d, "ok"), "w").write("ok\n")
+    return d
+
+
+def config_only(repo, cfg, api_ok, cb_ok, defs=()):
+    """configuration dict of a header set that is not built here (preprocessor only)"""
+    macros, mdiag = probe_macros(repo, cfg, defs=defs)
+    wait, _ = scan_wait(repo, cfg, defs=defs)
+    compiled, reports = static_config(repo, cfg, defs=defs)
+    c = dict(macros)
+    c["wait"] = wait
+    c.update({"compiled": compiled, "reports": reports, "api_ok": api_ok, "cb_ok": cb_ok})
+    txt = cpp(repo, cfg, text='#include "coap3/coap_libcoap_build.h"\nLKV_TS COAP_THREAD_SAFE LKV_RC COAP_THREAD_RECURSIVE_CHECK LKV_END\n', defs=defs)
+    m = re.search(r"LKV_TS\s+(.*?)\s+LKV_RC\s+(.*?)\s+LKV_END", txt, re.S)
+    c["_values"] = {"COAP_THREAD_SAFE": m.group(1) if m else "?", "COAP_THREAD_RECURSIVE_CHECK": m.group(2) if m else "?"}
+    return c
 
 
 # ----------------------------------------------------------------------------- (iii) COAP_API wrappers
@@ -673,15 +757,9 @@ def coq_list(xs):
     return "[" + "; ".join(xs) + "]"
 
 
-def render(c):
+def _render_one(name, c):
     b = lambda x: "true" if x else "false"
-    return """(* GENERATED by tools/regen_lock.py from the source tree and its build configuration - do not edit.
-   Rewritten on every run of `tools/check.py C13` when the content changes. *)
-From Coq Require Import List.
-Import ListNotations.
-From LibcoapV Require Import Lock.LockModel.
-
-Definition lk_gen_cfg : lk_cfg :=
+    return """Definition %s : lk_cfg :=
   {| lk_compiled := %s;
      lk_reports := %s;
      lk_m_api := %s;
@@ -692,9 +770,31 @@ Definition lk_gen_cfg : lk_cfg :=
      lk_m_wait := %s;
      lk_api_ok := %s;
      lk_cb_ok := %s |}.
-""" % (b(c["compiled"]), b(c["reports"]), coq_list(c["api"]), coq_list(c["keep"]),
+""" % (name, b(c["compiled"]), b(c["reports"]), coq_list(c["api"]), coq_list(c["keep"]),
        coq_list(c["keepret"]), coq_list(c["rel"]), coq_list(c["relret"]), coq_list(c["wait"]),
        b(c["api_ok"]), b(c["cb_ok"]))
+
+
+def render(c, c_rc=None, c_ac=None):
+    """c: the configuration the library is built with here (cmake defaults);
+    c_rc: the same tree with COAP_THREAD_RECURSIVE_CHECK=1 (what the autoconf build enables by
+    default): the other variant of every lock macro and of the lock functions"""
+    txt = """(* GENERATED by tools/regen_lock.py from the source tree and its build configuration - do not edit.
+   Rewritten on every run of `tools/check.py C13` when the content changes. *)
+From Coq Require Import List.
+Import ListNotations.
+From LibcoapV Require Import Lock.LockModel.
+
+""" + _render_one("lk_gen_cfg", c)
+    if c_rc is not None:
+        txt += "\n(* the COAP_THREAD_RECURSIVE_CHECK variant of the macros (preprocessor only, not built) *)\n" + \
+            _render_one("lk_gen_cfg_rc", c_rc)
+    if c_ac is not None:
+        txt += "\n(* the configuration produced by the second build system: ./autogen.sh && ./configure\n" \
+               "   (COAP_THREAD_SAFE = %s, COAP_THREAD_RECURSIVE_CHECK = %s; preprocessor only, not built) *)\n" % \
+               (c_ac["_values"]["COAP_THREAD_SAFE"], c_ac["_values"]["COAP_THREAD_RECURSIVE_CHECK"]) + \
+            _render_one("lk_gen_cfg_autoconf", c_ac)
+    return txt
 
 
 CANON = {"api": ["LkMLock", "LkMFunc", "LkMUnlock"],
@@ -703,8 +803,12 @@ CANON = {"api": ["LkMLock", "LkMFunc", "LkMUnlock"],
          "wait": ["LkMUnlock", "LkMFunc", "LkMLock"]}
 
 
-def translate(repo, cfg, compiled_srcs, compiled, reports):
-    """-> (cfg dict, diagnostics dict)"""
+RC_DEFS = ("-DCOAP_THREAD_RECURSIVE_CHECK=1",)
+
+
+def translate(repo, cfg, compiled_srcs, compiled, reports, ac_cfg=None):
+    """-> (cfg dict, diagnostics dict); diag["rc"] = the RECURSIVE_CHECK variant of the cmake
+    configuration, diag["ac"] = the configuration produced by autogen.sh+configure (when given)"""
     macros, mdiag = probe_macros(repo, cfg)
     wait, wdiag = scan_wait(repo, cfg)
     api_ok, api = scan_api(repo)
@@ -712,7 +816,11 @@ def translate(repo, cfg, compiled_srcs, compiled, reports):
     c = dict(macros)
     c["wait"] = wait
     c.update({"compiled": bool(compiled), "reports": bool(reports), "api_ok": api_ok, "cb_ok": cb_ok})
-    diag = {"macros": mdiag, "wait": wdiag,
+    st_compiled, st_reports = static_config(repo, cfg)
+    rc = config_only(repo, cfg, api_ok, cb_ok, defs=RC_DEFS)
+    ac = config_only(repo, ac_cfg, api_ok, cb_ok) if ac_cfg else None
+    diag = {"macros": mdiag, "wait": wdiag, "rc": rc, "ac": ac,
+            "static": {"compiled": st_compiled, "reports": st_reports},
             "api": {"ok": api_ok, "functions": len(api),
                     "by_verdict": _hist(r["verdict"] for r in api),
                     "not_ok": [r for r in api if r["verdict"] not in ("ok", "no-lock-needed")]},
@@ -729,7 +837,7 @@ def _hist(it):
     return h
 
 
-def differences(c):
+def differences(c, label=""):
     """human-readable list of what deviates from the canonical discipline"""
     out = []
     if not c["compiled"]:
@@ -744,7 +852,7 @@ def differences(c):
         out.append("a COAP_API function does not lock on entry / unlock on every return path")
     if not c["cb_ok"]:
         out.append("an application callback is invoked outside the lock macros")
-    return out
+    return [label + x for x in out]
 
 
 if __name__ == "__main__":
@@ -752,9 +860,14 @@ if __name__ == "__main__":
     import vlib
     cfgd = vlib.ensure_cfg()
     srcs = vlib.lib_sources(cfgd)
-    c, d = translate(vlib.REPO, cfgd, srcs, True, True)
+    acd = ensure_autoconf_cfg(vlib.REPO, vlib.BUILD)
+    c, d = translate(vlib.REPO, cfgd, srcs, True, True, ac_cfg=acd)
     d.pop("api_all")
     d.pop("sites_all")
-    print(json.dumps(d, indent=1))
-    print(render(c))
-    print(differences(c))
+    rc = d.pop("rc")
+    ac = d.pop("ac")
+    if "--gen" not in sys.argv:
+        print(json.dumps(d, indent=1))
+    print(render(c, rc, ac))
+    if "--gen" not in sys.argv:
+        print(differences(c), differences(rc, "[RECURSIVE_CHECK] "), differences(ac, "[autoconf] "))
